@@ -1,5 +1,7 @@
 //! Correspondence harness: generates cases from (seed, case number), runs the real crate in-process
 //! and prints one self-contained case per line for the Lean judge.
+mod c12;
+mod c13;
 mod c16;
 mod enc;
 mod gen;
@@ -23,11 +25,23 @@ fn main() {
     let mut lock = stdout.lock();
     for case in first..first + n {
         let mut rng = Rng::new(seed, case);
-        let line = match kind {
+        let line = std::panic::catch_unwind(std::panic::AssertUnwindSafe(|| match kind {
             "C16" => c16::case(&mut rng),
+            "C12" => c12::case(&mut rng, false),
+            "C12T" => c12::case(&mut rng, true),
+            "C13" => c13::case(&mut rng, false),
+            "C13T" => c13::case(&mut rng, true),
             _ => {
                 eprintln!("unknown kind {}", kind);
                 std::process::exit(2);
+            }
+        }));
+        // a panic that no per-call guard caught: the crate panicked on a call the generator considers valid
+        let line = match line {
+            Ok(l) => l,
+            Err(e) => {
+                let msg = e.downcast_ref::<String>().cloned().or_else(|| e.downcast_ref::<&str>().map(|s| s.to_string())).unwrap_or_default();
+                format!("PANIC {} {} {} {}", kind, seed, case, msg.replace(char::is_whitespace, "_"))
             }
         };
         writeln!(lock, "{}", line).unwrap();
